@@ -26,7 +26,10 @@ func init() {
 	// C08 number encodings: SetNReg's three candidate encodings use disjoint scratch windows (styling mirror)
 	register("C08", func(c *Ctx) { only(c, ruleC01_3, "C01.3") })
 	// C09 colours: the suggested palette's entries, reader side
-	register("C09", func(c *Ctx) { only(c, ruleC13, "C13.2") })
+	register("C09", func(c *Ctx) {
+		only(c, ruleC13, "C13.2")
+		only(c, ruleC01_4, "C01.4")
+	})
 	// C10 protocol: a Reset starts from nothing (no buffered operations or scratch carried over)
 	register("C10", func(c *Ctx) { only(c, ruleC17, "C17.1") })
 	// C15 gradient paint: drawn over the target rectangle from source point (0,0)
